@@ -124,7 +124,9 @@ def run_case(case: dict, st=None) -> Tuple[List[dict], Dict[str, Any]]:
         if raw_cond > 1e10 and not kind.startswith("raises"):
             # same root cause as the C09 finding: the w and 1/w columns are not equilibrated, so the un-normalised design
             # matrix is numerically rank deficient although the column-normalised problem is well conditioned
-            viols.append({"key": f"kk-exact|{kind}|badly-scaled-w-columns", "case": case, "detail": detail + f" raw design matrix condition {raw_cond:.2g}",
+            # the tag names implementation and representation, so that only those affected on the unchanged tree are known findings
+            tag = f"badly-scaled-w-columns|{case['test']}|{'Y' if case['adm'] else 'Z'}"
+            viols.append({"key": f"kk-exact|{kind}|{tag}", "case": case, "detail": detail + f" raw design matrix condition {raw_cond:.2g}",
                           "what": f"{what} [{cfg}; un-normalised design matrix condition {raw_cond:.2g}]"})
             return
         viols.append({"key": f"kk-exact|{kind}|{cfg}", "what": f"{what} [{cfg}]", "case": case, "detail": detail})
